@@ -47,7 +47,7 @@ pub fn check(h: &WHistory, obs: &mut Obs) -> CheckResult {
 }
 
 fn run(ctx: &Ctx) {
-    let n = ctx.share(ctx.tier.pick(600_000, 8_000_000));
+    let n = ctx.share(ctx.tier.pick(600_000, 20_000_000));
     ctx.run_cases("history", n, whistory_strategy(40, false), check);
 }
 
